@@ -311,16 +311,21 @@ pub fn dwarf(args: &[String]) -> Result<JValue> {
         }
     }
     ROWS_NAME_FILE0.store(false, std::sync::atomic::Ordering::SeqCst);
-    // known finding F18: a function whose first instruction is not re-emitted (a leading `nop`): the anchor of its low_pc / of its line
-    // sequence is not in the instruction map, the subprogram is tombstoned and its rows are dropped although the function is emitted
+    // F18 (repaired in /repo e8ad16a): a function whose first instruction is not re-emitted (a leading `nop`) and that declares no locals:
+    // the anchor of its low_pc / of its line sequence is the edge of an instruction that is not in the instruction map; the function is
+    // emitted, so its subprogram and its rows have to stay
     NOP_FIRST.store(true, std::sync::atomic::Ordering::SeqCst);
     for version in [4u16, 5] {
-        checked += 1;
-        let r = std::panic::catch_unwind(|| run(version, false, false, "unchanged", 0, 45));
-        let what = match r { Ok(Ok(None)) => continue, Ok(Ok(Some(w))) => w, Ok(Err(e)) => format!("error: {e:#}"), Err(_) => "panic during parse / emit with DWARF".into() };
-        let mut f = json!({"dwarf_version": version, "function_with_leading_nop": true, "what": what});
-        if what.contains("nopfirst") { f["finding_key"] = json!("C10:debug-info-of-a-function-lost-when-its-first-instruction-is-not-re-emitted"); }
-        failures.push(f);
+        for scenario in ["unchanged", "gc", "inserted"] {
+            // (low_pc at the first byte of the body, where walrus's own edge classification expects it; a low_pc at the size prefix is
+            // numerically the end of the previous function and is deliberately resolved to that end -- InclusiveFunctionEnd)
+            for lowpc_at_entry in [false] {
+                checked += 1;
+                let r = std::panic::catch_unwind(|| run(version, false, lowpc_at_entry, scenario, 0, 45));
+                let what = match r { Ok(Ok(None)) => continue, Ok(Ok(Some(w))) => w, Ok(Err(e)) => format!("error: {e:#}"), Err(_) => "panic during parse / emit with DWARF".into() };
+                failures.push(json!({"dwarf_version": version, "function_with_leading_nop": true, "scenario": scenario, "low_pc_at_entry": lowpc_at_entry, "what": what}));
+            }
+        }
     }
     NOP_FIRST.store(false, std::sync::atomic::Ordering::SeqCst);
     let n_fail = failures.len();
